@@ -202,6 +202,8 @@ pub fn run(ctx: &Ctx, reject_mode: bool) -> Result<Evidence, String> {
     corpus.extend(gen::notable_char_strings());
     corpus.extend(gen::double_fault_strings());
     corpus.extend(gen::syntax_inside_strings());
+    corpus.extend(gen::long_number_literal_queries());
+    corpus.extend(gen::nonsingular_in_value_position());
     for t in gen::composition_queries() {
         let ast = match analyze(&t).ast {
             Some(a) => a,
@@ -265,6 +267,7 @@ pub fn run(ctx: &Ctx, reject_mode: bool) -> Result<Evidence, String> {
     corpus.extend(deep);
     let n_corpus = corpus.len();
     let probe_doc = Doc::from_value(serde_json::json!({"a": [1, {"b": 2}], "b": "x"}));
+    let root_docs: Vec<serde_json::Value> = vec![serde_json::json!(null), serde_json::json!(true), serde_json::json!(0), serde_json::json!("s"), serde_json::json!(""), serde_json::json!([]), serde_json::json!({}), serde_json::json!([1]), serde_json::json!({"a": 1})];
     let total = n_gen + n_flt + n_corpus;
 
     let acc = par_run(ctx, total, |i, acc: &mut Acc| {
@@ -344,6 +347,21 @@ pub fn run(ctx: &Ctx, reject_mode: bool) -> Result<Evidence, String> {
                     if i % 4001 == 0 || (fam == "corpus" && i % 7 == 0) {
                         acc.sample(json!({"invalid": s, "reason": r.name(), "family": fam}));
                     }
+                    // the entry points that take a query text must reject it too, whatever the
+                    // document is (a scalar or empty root must not short-cut the validation)
+                    let mut accepted = accepted;
+                    let mut via = "parse_json_path";
+                    if !accepted && (fam != "exhaustive-general" && fam != "exhaustive-filter" || i % 16 == 0) {
+                        let d = &root_docs[i % root_docs.len()];
+                        if !matches!(libapi::query_with_path(&s, d), libapi::LibOutcome::Err(_)) {
+                            accepted = true;
+                            via = "query_with_path on a scalar / empty / small root document";
+                        } else if i % 3 == 0 && !matches!(libapi::query_paths(&s, d), Ok(Err(_))) {
+                            accepted = true;
+                            via = "query_only_path on a scalar / empty / small root document";
+                        }
+                    }
+                    let _ = via;
                     if accepted {
                         let known = match r {
                             Reason::FnArgType | Reason::FnResultAsTest | Reason::FnArity if armed.has("fn_typing") => Some(armed.id_of("fn_typing")),
@@ -351,7 +369,7 @@ pub fn run(ctx: &Ctx, reject_mode: bool) -> Result<Evidence, String> {
                         };
                         match known {
                             Some(id) => ctx.add_known(&id, 1),
-                            None => ctx.violate(&format!("invalid string accepted ({}): {:?}", r.name(), s), json!({"kind":"accept","string": s, "expected":"reject", "reason": r.name(), "family": fam})),
+                            None => ctx.violate(&format!("invalid string accepted ({}) by {}: {:?}", r.name(), via, s), json!({"kind":"accept","string": s, "expected":"reject", "reason": r.name(), "family": fam, "via": via})),
                         }
                     } else {
                         acc.count("held", 1);
